@@ -65,6 +65,8 @@ Spec == Init /\ [][Next]_vars
 
 View == <<ViewOf(st), env>>
 Bound == Len(hist) < Depth
+\* plain TLC runs (no edge emission): force TLC to normalise lazily evaluated values before a state is queued
+Norm == ToJson(st') # "" /\ ToJson(res') # ""
 Emit == PrintT(<<"E", ToJson([hist |-> hist', exp |-> Proj(st') @@ res'])>>)
 
 \* ---------------------------------------------------------------- C08 on the model
